@@ -142,6 +142,52 @@ def huge_operands(rng, tier):
     return ops
 
 
+MAX_CAPACITY = USIZE_MAX // 64          # Buffer::MAX_CAPACITY (words)
+
+
+def shl_request(x, n):
+    """words `TypedRepr << n` asks `Buffer::allocate` for (shift_ops.rs, per arm); None: no allocation"""
+    if x == 0:
+        return None
+    if x < (1 << 128):
+        if x.bit_length() + n <= 128:
+            return None
+        return n // 64 + 1 if x == 1 else n // 64 + 3          # shl_one_spilled / shl_dword_spilled
+    return n // 64 + nwords(x) + 1                               # shl_large -> shl_large_ref
+
+
+def huge_left_cases(rng, tier):
+    """<<, set_bit, ones with counts near usize::MAX.  These ops allocate n/64 words, so only the two classes that are cheap in
+    the real code are driven: a ZERO operand of << (arm `Small(0)`: 0 for every count, all huge counts), and a count whose
+    allocation request exceeds Buffer::MAX_CAPACITY (panic AllocTooMuch BEFORE anything is allocated) — for every arm from its
+    LOWEST panicking count (2^64 - 64*c, c = 1 for 1 << n / set_bit / ones, 3 for other inline values, len+1 for heap values)
+    up to usize::MAX.  The count just below each boundary (a real request of 2^58-1 words: out of memory) is never generated."""
+    quick = tier == "quick"
+    for k in huge_counts(rng, tier):
+        yield Case("u.shl", [hx(0), dec(k)]); yield Case("i.shl", [hx(0), dec(k)])
+    ops = [1, 2, 3, M, 1 << 64, (1 << 128) - 1, mag(rng, 2, "random"), 1 << 128, mag(rng, 3, "random"), mag(rng, 4, "lowzero"),
+           mag(rng, 6, "sparse")]
+    if not quick:
+        ops += [nat(rng, tier) or 1 for _ in range(30)]
+    for a in ops:
+        c = shl_request(a, USIZE_MAX) - USIZE_MAX // 64
+        lo = (1 << 64) - 64 * c
+        ns = [lo, lo + 1, lo + 63, min(lo + 64, USIZE_MAX), USIZE_MAX - 64, USIZE_MAX - 63, USIZE_MAX - 1, USIZE_MAX]
+        ns += [rng.randrange(lo, USIZE_MAX + 1) for _ in range(2 if quick else 12)]
+        for n in sorted(set(ns)):
+            if n < lo or shl_request(a, n) <= MAX_CAPACITY:
+                continue
+            yield Case("u.shl", [hx(a), dec(n)]); yield Case("i.shl", [hx(-a), dec(n)])
+            if n & 1:
+                yield Case("i.shl", [hx(a), dec(n)])
+    lo = (1 << 64) - 64                         # set_bit / ones: idx + 1 = n/64 + 1 > MAX_CAPACITY  <=>  n >= 2^64 - 64
+    ns = [lo, lo + 1, lo + 31, USIZE_MAX - 1, USIZE_MAX] + ([] if quick else list(range(lo, USIZE_MAX + 1)))
+    for n in sorted(set(ns)):
+        yield Case("u.ones", [dec(n)])
+        for a in [0, 1, M, (1 << 128) - 1, 1 << 128, mag(rng, 3, "random"), mag(rng, 5, "lowones")]:
+            yield Case("u.setbit", [hx(a), dec(n)])
+
+
 PRIM_U = [("u8", 8), ("u16", 16), ("u32", 32), ("u64", 64), ("u128", 128), ("usize", 64)]
 PRIM_I = [("i8", 8), ("i16", 16), ("i32", 32), ("i64", 64), ("i128", 128), ("isize", 64)]
 
@@ -189,6 +235,30 @@ def generate(rng, tier):
             signed = rng.random() < 0.5
             ty, bits = rng.choice(PRIM_I if signed else PRIM_U)
             yield Case("ip." + op, [hx(sgn(rng, nat(rng, tier))), ty, hx(prim_val(rng, bits, signed))])
+    # ---- primitives, systematically: every macro instantiation (op x primitive type x UBig/IBig) x sign of the big operand x
+    #      inline/heap x sign of a signed primitive at least once (each (op, type) pair is a distinct impl block in bits.rs)
+    for op in ("and", "or", "xor"):
+        for ty, bits in PRIM_U:
+            for n in (rng.choice([1, 2]), rng.choice([3, 4, 5])):
+                yield Case("up." + op, [hx(mag(rng, n, rng.choice(MAG_PATTERNS))), ty, hx(prim_val(rng, bits, False))])
+                for neg in (False, True):
+                    a = mag(rng, n, rng.choice(MAG_PATTERNS))
+                    yield Case("ip." + op, [hx(-a if neg else a), ty, hx(prim_val(rng, bits, False))])
+        for ty, bits in PRIM_I:
+            for n in (rng.choice([1, 2]), rng.choice([3, 4, 5])):
+                for neg in (False, True):
+                    for pneg in (False, True):
+                        a = mag(rng, n, rng.choice(MAG_PATTERNS))
+                        v = rng.choice([-1, -(1 << (bits - 1)), -rng.randrange(1, 1 << (bits - 1))]) if pneg else \
+                            rng.choice([0, 1, (1 << (bits - 1)) - 1, rng.randrange(0, 1 << (bits - 1))])
+                        yield Case("ip." + op, [hx(-a if neg else a), ty, hx(v)])
+    # ---- mixed UBig/IBig operators with two heap operands in each length relation (shorter / equal / longer first operand)
+    for op in ("and", "or", "xor"):
+        for lx, ly in ((3, 4), (4, 3), (3, 3), (5, 3)):
+            for neg in (False, True):
+                x = mag(rng, lx, rng.choice(MAG_PATTERNS)); y = mag(rng, ly, rng.choice(MAG_PATTERNS))
+                yield Case("ui." + op, [hx(x), hx(-y if neg else y)])
+                yield Case("iu." + op, [hx(-x if neg else x), hx(y)])
     # ---- shifts and positional ops: all the boundary counts for each operand
     n_pos = 140 if quick else 5000
     for _ in range(n_pos):
@@ -233,6 +303,7 @@ def generate(rng, tier):
                 yield Case(op, [hx(a), dec(k)])
             for op in ("i.shl", "i.shr", "i.bit"):
                 yield Case(op, [hx(-a), dec(k)])
+            yield Case("i.shl", [hx(a), dec(k)])
     # ---- huge usize arguments (>= 2^31 .. usize::MAX) for every op that is cheap there, inline and heap, both signs
     for a in huge_operands(rng, tier):
         for k in huge_counts(rng, tier):
@@ -242,6 +313,8 @@ def generate(rng, tier):
             yield Case("i.bit", [hx(-a), dec(k)])
             if k & 1:
                 yield Case("i.shr", [hx(a), dec(k)]); yield Case("i.bit", [hx(a), dec(k)])
+    # ---- huge counts for the allocating ops (<<, set_bit, ones): zero operand / request above Buffer::MAX_CAPACITY
+    yield from huge_left_cases(rng, tier)
     # ---- scans, counts, powers of two
     for _ in range(500 if quick else 20000):
         a = nat(rng, tier)
@@ -261,11 +334,237 @@ def generate(rng, tier):
                 yield Case(op, [hx(top | low)])
             yield Case("u.ispow2", [hx(top)]); yield Case("u.nextpow2", [hx(top)])
             yield Case("i.to", [hx(-(top | low))]); yield Case("i.tz", [hx(-(top | low))])
+    # ---- heap values whose LOW words are all zero: top word not a power of two / a power of two / above 2^63 (next_power_of_two
+    #      pushes a new word without a carry from below); trailing ones of a POSITIVE IBig with exactly 0, 1, 2, all words of ones
+    for nw in (3, 4, 6):
+        for top in (3, 6, (1 << 63) + 1, M, 1 << 63, 1, rng.getrandbits(62) | (1 << 62) | 1):
+            x = top << (W * (nw - 1))
+            for op in ("u.ispow2", "u.nextpow2", "u.tz", "u.countzeros", "u.bitlen", "i.tz"):
+                yield Case(op, [hx(x)])
+        for k in range(nw + 1):
+            x = ((rng.getrandbits(W * (nw - k)) | (1 << (W * (nw - k) - 1))) & ~1) << (W * k) | ((1 << (W * k)) - 1) if k < nw \
+                else (1 << (W * nw)) - 1
+            yield Case("i.to", [hx(x)]); yield Case("u.to", [hx(x)]); yield Case("i.to", [hx(-x - 1)]); yield Case("i.tz", [hx(x + 1)])
+        # -(1 + 2^j * odd), j >= 64: trailing_ones_neg takes the shifted scan (words[0] == 1) with 0, 1, .. zero words above word 0
+        for zw in range(nw - 1):
+            j = W * (1 + zw) + rng.choice([0, 1, 62, 63])
+            x = 1 | ((rng.getrandbits(W * nw - j - 1) | (1 << (W * nw - j - 1)) | 1) << j)
+            yield Case("i.to", [hx(-x)]); yield Case("i.to", [hx(x)]); yield Case("i.bit", [hx(-x), dec(j)]); yield Case("i.not", [hx(-x)])
     # ---- ones(n)
     for n in sorted(set([0, 1, 2, 63, 64, 65, 127, 128, 129, 191, 192, 193, 255, 256, 257, 1000, 4096]
                         + [rng.randrange(0, 700) for _ in range(20 if quick else 400)])):
         yield Case("u.ones", [dec(n)])
     yield Case("u.ones", [dec(1000000)])
+
+
+# ------------------------------------------------------------------ which arm of the code a case reaches
+# `arm(case)` names the `if`/`match` arm of integer/src/{bits,shift_ops,shift}.rs (+ Repr::ones) a case takes, computed from the
+# branch conditions of the source on the case's arguments.  `python3 -m vlib.props.c09 [quick|thorough]` prints the histogram
+# over the generated stream and lists the arms of ALL_ARMS that are not reached.
+
+def _sz(v):
+    return "S" if abs(v) < (1 << 128) else "L"
+
+
+def _shr_arm(x, k):
+    if _sz(x) == "S":
+        return "small-in" if k < 128 else "small-out"
+    ln = nwords(x)
+    if k // W >= ln:
+        return "large-out"
+    return "large-rem%s-%s" % (min(ln - k // W, 3), "bits0" if k % W == 0 else "bits")
+
+
+def _lowbits_arm(x, k):
+    if _sz(x) == "S":
+        return "lb-small-clamped" if k >= 128 else "lb-small"
+    if k // W >= nwords(x):
+        return "lb-all"
+    low = x & ((1 << (k // W * W)) - 1)
+    return "lb-lowword" if low else "lb-top"
+
+
+def _tz_words(x):
+    n = 0
+    while (x >> (W * n)) & M == 0:
+        n += 1
+    return n
+
+
+def arm(c):
+    op = c.op
+    A = c.args
+    def I(i):
+        a = A[i]
+        return int(a[2:]) if a.startswith("d:") else int(a, 16)
+    if op in ("u.and", "u.or", "u.xor", "i.and", "i.or", "i.xor", "ui.and", "ui.or", "ui.xor", "iu.and", "iu.or", "iu.xor"):
+        x, y = I(0), I(1)
+        t = _sz(x) + _sz(y)
+        if t == "LL":
+            t += "<" if nwords(x) < nwords(y) else ("=" if nwords(x) == nwords(y) else ">")
+        sg = ("-" if x < 0 else "+") + ("-" if y < 0 else "+") if op[0] != "u" or op[1] != "." else ""
+        return "%s:%s%s" % (op, sg, t)
+    if op == "i.not":
+        x = I(0)
+        return "i.not:%s%s" % ("-" if x < 0 else "+", _sz(x))
+    if op in ("up.and", "up.or", "up.xor", "ip.and", "ip.or", "ip.xor"):
+        x, v = I(0), I(2)
+        return "%s:%s:%s%s%s" % (op, A[1], "-" if x < 0 else "+", _sz(x), "-" if v < 0 else "+")
+    if op in ("u.shl", "i.shl"):
+        x, k = abs(I(0)), I(1)
+        sg = ("-" if I(0) < 0 else "+") if op[0] == "i" else ""
+        if x == 0:
+            t = "zero"
+        elif shl_request(x, k) is not None and shl_request(x, k) > MAX_CAPACITY:
+            t = "alloc-too-much-" + ("one" if x == 1 else _sz(x))
+        elif _sz(x) == "S":
+            t = "small-fits" if x.bit_length() + k <= 128 else ("one-spilled" if x == 1 else "dword-spilled")
+        else:
+            t = "large-bits0" if k % W == 0 else "large"
+        return "%s:%s%s" % (op, sg, t)
+    if op == "u.shr":
+        return "u.shr:" + _shr_arm(I(0), I(1))
+    if op == "i.shr":
+        x, k = I(0), I(1)
+        if x >= 0:
+            return "i.shr:+" + _shr_arm(x, k)
+        return "i.shr:-%s:%s" % (_shr_arm(-x, k), _lowbits_arm(-x, k))
+    if op in ("u.bit", "i.bit"):
+        x, k = I(0), I(1)
+        m = abs(x)
+        t = ("small-in" if k < 128 else "small-out") if _sz(m) == "S" else ("large-in" if k // W < nwords(m) else "large-out")
+        if op == "i.bit":
+            if x < 0:
+                tz = (m & -m).bit_length() - 1
+                t = "-" + ("eq" if k == tz else ("gt" if k > tz else "lt")) + ":" + t
+            else:
+                t = "+" + t
+        return op + ":" + t
+    if op in ("u.setbit", "u.clearbit"):
+        x, k = I(0), I(1)
+        if op == "u.setbit" and k // W + 1 > MAX_CAPACITY:
+            return "u.setbit:alloc-too-much-" + _sz(x)
+        if _sz(x) == "S":
+            return op + (":small-in" if k < 128 else ":small-out")
+        return op + (":large-in" if k // W < nwords(x) else ":large-out")
+    if op in ("u.clearhigh", "u.splitbits"):
+        x, k = I(0), I(1)
+        if _sz(x) == "S":
+            return op + (":small-in" if k < 128 else ":small-out")
+        if op == "u.splitbits" and k == 0:
+            return op + ":large-n0"
+        nw = (k + W - 1) // W
+        t = "large-beyond" if nw > nwords(x) else ("large-cut-aligned" if k % W == 0 else "large-cut-inside")
+        if op == "u.splitbits":
+            t += ":hi-" + _shr_arm(x, k)
+        return op + ":" + t
+    if op in ("u.tz", "i.tz"):
+        x = abs(I(0))
+        if x == 0:
+            return op + ":zero"
+        return op + (":small" if _sz(x) == "S" else ":large-zw%d" % min(_tz_words(x), 2))
+    if op == "u.to" or (op == "i.to" and I(0) >= 0):
+        x = I(0)
+        if _sz(x) == "S":
+            return op + ":+small"
+        ow = _tz_words(x + 1) if (x + 1) >> (W * nwords(x)) == 0 else nwords(x)
+        return op + (":+large-all-ones" if x + 1 == 1 << (W * nwords(x)) else ":+large-ow%d" % min(ow, 2))
+    if op == "i.to":
+        m = -I(0)
+        if _sz(m) == "S":
+            return "i.to:-small-one" if m == 1 else "i.to:-small"
+        if m % 2 == 0:
+            return "i.to:-large-even"
+        zb = ((m & M) >> 1)
+        zb = W if zb == 0 else (zb & -zb).bit_length() - 1
+        if zb < W - 1:
+            return "i.to:-large-odd-begin"
+        return "i.to:-large-odd-scan-zw%d" % min(_tz_words(m >> W), 2)
+    if op in ("u.countones", "u.bitlen", "i.bitlen", "u.ispow2"):
+        x = abs(I(0))
+        if op == "u.ispow2" and _sz(x) == "L":
+            low = x & ((1 << (W * (nwords(x) - 1))) - 1)
+            top = x >> (W * (nwords(x) - 1))
+            return "u.ispow2:large-%s-%s" % ("lowzero" if low == 0 else "lownonzero", "toppow2" if top & (top - 1) == 0 else "topnot")
+        return op + ":" + _sz(x)
+    if op == "u.countzeros":
+        x = I(0)
+        return "u.countzeros:" + ("zero" if x == 0 else _sz(x))
+    if op == "u.nextpow2":
+        x = I(0)
+        if _sz(x) == "S":
+            return "u.nextpow2:" + ("small-spill" if x > 1 << 127 else "small")
+        low = x & ((1 << (W * (nwords(x) - 1))) - 1)
+        top = (x >> (W * (nwords(x) - 1))) + (1 if low else 0)
+        return "u.nextpow2:large-carry%d-%s" % (1 if low else 0, "push" if top > 1 << 63 else "same")
+    if op == "u.ones":
+        k = I(0)
+        if k // W + 1 > MAX_CAPACITY:
+            return "u.ones:alloc-too-much"
+        return "u.ones:" + ("word" if k < W else ("dword" if k <= 2 * W else ("heap-aligned" if k % W == 0 else "heap")))
+    return op + ":?"
+
+
+def _all_arms():
+    out = set()
+    for o in ("and", "or", "xor"):
+        for t in ("SS", "SL", "LS", "LL<", "LL=", "LL>"):
+            out.add("u.%s:%s" % (o, t))
+            for sg in ("++", "+-", "-+", "--"):
+                out.add("i.%s:%s%s" % (o, sg, t))
+            for sg in ("++", "+-"):
+                out.add("ui.%s:%s%s" % (o, sg, t))
+            for sg in ("++", "-+"):
+                out.add("iu.%s:%s%s" % (o, sg, t))
+    out |= {"i.not:+S", "i.not:-S", "i.not:+L", "i.not:-L"}
+    shl = ["zero", "small-fits", "one-spilled", "dword-spilled", "large-bits0", "large", "alloc-too-much-one", "alloc-too-much-S",
+           "alloc-too-much-L"]
+    out |= {"u.shl:" + t for t in shl} | {"i.shl:%s%s" % (sg, t) for sg in "+-" for t in shl if t != "zero"} | {"i.shl:+zero"}
+    shr = ["small-in", "small-out", "large-out"] + ["large-rem%d-%s" % (r, b) for r in (1, 2, 3) for b in ("bits0", "bits")]
+    out |= {"u.shr:" + t for t in shr} | {"i.shr:+" + t for t in shr}
+    out |= {"i.shr:-%s:%s" % (t, lb) for t in ("small-in",) for lb in ("lb-small",)}
+    out |= {"i.shr:-small-out:lb-small-clamped", "i.shr:-large-out:lb-all"}
+    out |= {"i.shr:-%s:%s" % (t, lb) for t in shr if t.startswith("large-rem") for lb in ("lb-lowword", "lb-top")}
+    pos = ["small-in", "small-out", "large-in", "large-out"]
+    out |= {"u.bit:" + t for t in pos} | {"i.bit:+" + t for t in pos}
+    out |= {"i.bit:-%s:%s" % (c_, t) for c_ in ("lt", "eq", "gt") for t in ("small-in", "large-in")}
+    out |= {"i.bit:-gt:small-out", "i.bit:-gt:large-out"}
+    out |= {o + ":" + t for o in ("u.setbit", "u.clearbit") for t in pos} | {"u.setbit:alloc-too-much-S", "u.setbit:alloc-too-much-L"}
+    cut = ["large-beyond", "large-cut-aligned", "large-cut-inside"]
+    out |= {"u.clearhigh:" + t for t in ["small-in", "small-out"] + cut}
+    out |= {"u.splitbits:small-in", "u.splitbits:small-out", "u.splitbits:large-n0", "u.splitbits:large-beyond:hi-large-out"}
+    out |= {"u.splitbits:large-cut-aligned:hi-large-rem%d-bits0" % r for r in (1, 2, 3)} | {"u.splitbits:large-cut-aligned:hi-large-out"}
+    out |= {"u.splitbits:large-cut-inside:hi-large-rem%d-bits" % r for r in (1, 2, 3)}
+    out |= {o + t for o in ("u.tz", "i.tz") for t in (":zero", ":small", ":large-zw0", ":large-zw1", ":large-zw2")}
+    to = [":+small", ":+large-all-ones", ":+large-ow0", ":+large-ow1", ":+large-ow2"]
+    out |= {"u.to" + t for t in to} | {"i.to" + t for t in to}
+    out |= {"i.to:-small-one", "i.to:-small", "i.to:-large-even", "i.to:-large-odd-begin", "i.to:-large-odd-scan-zw0",
+            "i.to:-large-odd-scan-zw1", "i.to:-large-odd-scan-zw2"}
+    out |= {o + ":" + t for o in ("u.countones", "u.bitlen", "i.bitlen") for t in "SL"} | {"u.ispow2:S"}
+    out |= {"u.ispow2:large-%s-%s" % (a, b) for a in ("lowzero", "lownonzero") for b in ("toppow2", "topnot")}
+    out |= {"u.countzeros:zero", "u.countzeros:S", "u.countzeros:L"}
+    out |= {"u.nextpow2:small", "u.nextpow2:small-spill", "u.nextpow2:large-carry0-same", "u.nextpow2:large-carry0-push",
+            "u.nextpow2:large-carry1-same", "u.nextpow2:large-carry1-push"}
+    out |= {"u.ones:word", "u.ones:dword", "u.ones:heap", "u.ones:heap-aligned", "u.ones:alloc-too-much"}
+    for ty, _ in PRIM_U:
+        for o in ("and", "or", "xor"):
+            out |= {"up.%s:%s:+%s+" % (o, ty, z) for z in "SL"} | {"ip.%s:%s:%s%s+" % (o, ty, sg, z) for sg in "+-" for z in "SL"}
+    for ty, _ in PRIM_I:
+        for o in ("and", "or", "xor"):
+            out |= {"ip.%s:%s:%s%s%s" % (o, ty, sg, z, sv) for sg in "+-" for z in "SL" for sv in "+-"}
+    return out
+
+
+ALL_ARMS = _all_arms()
+
+
+def arm_histogram(tier="quick", seed=20260929):
+    import random
+    h = {}
+    for c in generate(random.Random(seed), tier):
+        t = arm(c)
+        h[t] = h.get(t, 0) + 1
+    return h
 
 
 def nontrivial(c):
@@ -288,10 +587,19 @@ RULE = ("operands: magnitudes of exactly 0..6,9 (thorough: ..100) words x patter
         "(quick: the named ones + 24 sampled of each k-range; thorough: all) for the ops that are cheap there (>> and >>= in all six "
         "call forms on UBig and IBig of both signs, bit on UBig/IBig, clear_bit, clear_high_bits, split_bits) on inline 1-/2-word "
         "and heap 3..6-word operands (single bit, all ones, low words zero, random); <<, set_bit, ones are never given such "
-        "arguments (they allocate n/64 words); trailing_zeros/ones, count_ones/zeros, bit_len, "
+        "arguments EXCEPT in the two classes that are cheap: `0 << n` (= 0) for every huge count, and counts whose allocation request "
+        "exceeds Buffer::MAX_CAPACITY (per arm from its lowest panicking count 2^64-64c — c = 1 for `1 << n`, set_bit, ones; 3 for "
+        "other inline values; len+1 for heap values — up to usize::MAX: panic AllocTooMuch, compared as a panic kind; the request "
+        "formulas are C16's mirrored guards); trailing_zeros/ones, count_ones/zeros, bit_len, "
         "is_power_of_two, next_power_of_two on the same operands; ones(n) for n in {0..2,63..65,127..129,191..193,255..257,"
         "1000,4096,10^6, random < 700}; the exact-value operands {0,1,2,3,2^64-1,2^64,2^64+1,2^127,2^127+1,2^128-1} (and their "
-        "negatives) x every unary op and x counts {0,1,63..65,127..129,191,192,200,256} for every positional op. Every case runs all ownership/assign call forms. Non-trivial := an operand of >= 3 "
+        "negatives) x every unary op and x counts {0,1,63..65,127..129,191,192,200,256} for every positional op. Round 5: primitive "
+        "operands systematically — every (op, primitive type, UBig/IBig) impl x sign of the big operand x inline/heap x sign of a signed "
+        "primitive; mixed UBig/IBig operators on two heap operands in every length relation; heap values with all low words zero and "
+        "top word {not a power of two, 2^63, > 2^63, MAX, 1}; positive IBig with exactly 0..len full words of trailing ones; "
+        "-(1 + 2^j*odd) with j >= 64 (shifted scan with 0.. zero words). `arm(case)` in the module names the if/match arm of "
+        "bits.rs / shift_ops.rs a case takes (571 arms listed in ALL_ARMS); `python3 -m vlib.props.c09 quick` prints the histogram: "
+        "all 571 are reached in both tiers. Every case runs all ownership/assign call forms. Non-trivial := an operand of >= 3 "
         "words, or a produced value of >= 3 words; distinct := distinct (op,args) lines.")
 
 REFINED = [
@@ -325,6 +633,45 @@ REFINED = [
     "shift.rs in full: shl_in_place, shr_in_place (incl. the shift == WORD_BITS arm -> shr_in_place_one_word), "
     "shr_in_place_with_carry (incl. a non-zero incoming carry and the shift == 0 early return), shr_in_place_one_word: mirrored in "
     "Model/Int/Div.lean (C02's model) and proved EQUAL to the bit model's shlBits / shrBits (Props/C09Shift.lean)",
+    # round 5
+    "shift.rs word loops as REGENERATED text (Gen/ShiftLoops.lean, vlib/extract_shift.py): the loop header (`for word in words` / "
+    "`words.iter_mut().rev()` selects the fold direction), every statement of the loop body, the `shift == 0` early return, the "
+    "initial carry and the result of shl_in_place / shr_in_place_with_carry, the arm selection of shr_in_place, and the recognised "
+    "raw-pointer statement sequence of shr_in_place_one_word — total on the debug_assert!ed domain and EQUAL to the hand mirrors "
+    "and to the bit model's shlBits / shrBits (Props/GenShift.lean); a change of direction, of the carry hand-over, of the shifted "
+    "width or of the dispatch breaks a theorem",
+    "primitive-typed forms, Tie A: the ten regenerated `fn` bodies of impl_binop_with_primitive (4), "
+    "impl_commutative_binop_with_primitive (4), impl_binop_assign_with_primitive (2) of integer/src/helper_macros.rs "
+    "(Gen/FormsGlue.lean), callees interpreted by the executed models (`<$t>::from` = from_unsigned / from_signed, `$method` = the "
+    "operator, `try_into` = try_to_unsigned or the reflexive Ok, `unwrap`), proved EQUAL to ubigAndPrim / ubigOpPrim / ibigAndPrimU / "
+    "ibigOpPrimU / ibigOpPrimS incl. which operand is converted and the operand order of the primitive-first forms (Props/GenBitsPrim.lean)",
+    "bits.rs word scans as REGENERATED text (Gen/BitScans.lean, vlib/extract_scans.py): trailing_zeros_large, "
+    "trailing_zeros_large_shifted_by_one, trailing_ones_large — the `while i < words.len() { if words[i] != C { break; } i += 1; }` "
+    "loops (start index and skipped word value read from the source), every `words[e]` as a checked access, the all-ones early exit, "
+    "`(zero_words - 1) * WORD_BITS + zero_bits + zero_begin - 1` over checked usize arithmetic — EQUAL to tzLarge / "
+    "tzLargeShiftedByOne / toScanFixed incl. exactly when they panic (Props/GenScans.lean); the historical trailing_ones_large "
+    "(start index 1, no exit: defect 754b193) and the off-by-one of mutant m04 break the theorems; also "
+    "are_slice_low_bits_nonzero (the floor correction of IBig >> n on a heap magnitude: the `n_words >= len` exit, "
+    "`words[..n_words].iter().any(..)`, the checked `words[n_words]`, `ones_word(n % W)`) = areSliceLowBitsNonzero "
+    "(gen_are_slice_low_bits_nonzero; mutants m03 / m18 now also break this theorem)",
+    "mixed UBig/IBig `|` and `^` (8 + 8 value/reference impls): the regenerated forwarding bodies forward_ubig_ibig_binop_to_repr / "
+    "forward_ibig_ubig_binop_to_repr (the UBig operand enters the core as (Sign::Positive, magnitude), operand order kept) composed "
+    "with the regenerated sign tables impl_ibig_bitor / impl_ibig_bitxor = OR / XOR of the two values (Props/GenBitsMixed."
+    "gen_mixed_or_xor); the hand model the driver runs for ui.or/iu.or/ui.xor/iu.xor = the same, canonical (mixed_or_xor)",
+    "shift_ops.rs heap arms as REGENERATED text (Gen/ShiftHeap.lean, vlib/extract_shiftheap.py): shl_one_spilled, shl_dword_spilled, "
+    "shl_large_ref, shl_large, shr_large — Buffer::allocate requests (checked usize arithmetic), push / push_zeros / push_slice / "
+    "push_zeros_front / erase_front, the calls of the regenerated shl_in_place / shr_in_place (on `&mut buffer` and on the sub-slice "
+    "`&mut buffer[shift_words..]`) and of math::shl_dword, the capacity branch of shl_large (theorem for EVERY capacity), the early "
+    "return of shr_large, Repr::from_buffer — EQUAL to shlDword's spilled arms / shlLarge / shrLarge (Props/GenShiftHeap.lean); "
+    "shr_large_ref (slice-pattern match) stays hand-mirrored (proved equal to shrLarge's value in Props/C09.shr_exact)",
+    "bits.rs heap arms of set_bit / clear_high_bits as REGENERATED text (Gen/BitsHeap.lean): with_bit_dword_spilled, with_bit_large "
+    "(`buffer[idx] |= …` as a checked access, the extend arm with ensure_capacity / push_zeros(idx - len) / push), "
+    "clear_high_bits_large (ceil_div, the `n_words > len` exit, truncate, `*last &= ones_word(..)`) — EQUAL to TRepr.setBit's arms / "
+    "clearHighBitsLarge (Props/GenBitsHeap.lean)",
+    "bits.rs word loops of & | ^ and_not as REGENERATED text (Gen/BitOpsHeap.lean): bitand_large (truncate to the shorter operand, `&=` "
+    "over the zip), bitor_large / bitxor_large (`|=` / `^=` over the zip, `push_slice(&rhs[buffer.len()..])` for a longer rhs), "
+    "and_not_large (`&= !y`), bitor/bitxor/and_not_large_dword (lowest_dword_mut) — EQUAL to zipAnd / zipOr / zipXor / zipAndNot / "
+    "opLargeDword, i.e. to the heap/heap arms of TRepr.bitand/bitor/bitxor/andNot (Props/GenBitOpsHeap.lean)",
     "the driver's evaluation of the specification for huge usize arguments (fastSpecShr, fastSpecBit, fastDivPow2, fastModPow2, "
     "fastClearBit) = the specification, all arguments",
 ]
@@ -373,7 +720,23 @@ THEOREMS = ["Dashu.Props.C09." + n for n in [
                                               "gen_clear_bit_small", "gen_clear_high_bits_small", "gen_split_bits_small",
                                               "gen_heap_indices", "gen_clear_high_bits_large_n_words", "gen_ones_inline"]] + [
     "Dashu.Props.C09Shift." + n for n in ["shlBits_eq_shlLoop", "shlBits_eq_shlInPlace", "mathShlDword_eq", "shrBits_eq_shrLoop",
-                                          "shrBits_eq_shrInPlace", "div_kernels_are_generated"]]
+                                          "shrBits_eq_shrInPlace", "div_kernels_are_generated"]] + [
+    "Dashu.Props.GenShift." + n for n in ["gen_shl_step", "forWords_shl", "gen_shl_in_place", "gen_shr_step", "forWordsRev_shr",
+                                          "gen_shr_in_place_with_carry", "gen_shr_in_place_one_word",
+                                          "gen_shr_in_place_one_word_empty", "gen_shr_in_place", "gen_loops_are_the_bit_model"]] + [
+    "Dashu.Props.GenBitsPrim." + n for n in ["gen_ubig_and_prim", "gen_ibig_and_prim", "gen_ubig_op_prim",
+                                             "gen_ibig_op_prim_unsigned", "gen_ibig_op_prim_signed"]] + [
+    "Dashu.Props.GenScans." + n for n in ["trailing_zeros_eq", "trailing_ones_eq", "tz_scan", "gen_trailing_zeros_large", "to_scan",
+                                          "gen_trailing_ones_large", "gen_trailing_zeros_large_shifted_by_one",
+                                          "gen_trailing_zeros_large_shifted_by_one_empty",
+                                          "gen_are_slice_low_bits_nonzero"]] + [
+    "Dashu.Props.GenBitsMixed." + n for n in ["core_or", "core_xor", "gen_mixed_or_xor", "ubig_as_ibig", "mixed_or_xor"]] + [
+    "Dashu.Props.C09." + n for n in ["ibig_trailing_zeros_bits", "ibig_trailing_ones_bits"]] + [
+    "Dashu.Props.GenShiftHeap." + n for n in ["gen_shl_one_spilled", "gen_shl_dword_spilled", "gen_shl_dword_spilled_arms",
+                                              "gen_shl_large_ref", "gen_shl_large", "gen_shr_large"]] + [
+    "Dashu.Props.GenBitsHeap." + n for n in ["gen_with_bit_dword_spilled", "gen_with_bit_large", "gen_clear_high_bits_large"]] + [
+    "Dashu.Props.GenBitOpsHeap." + n for n in ["gen_bitand_large", "gen_bitor_large", "gen_bitxor_large", "gen_and_not_large",
+                                               "gen_large_dword", "gen_large_dword_short", "gen_heap_heap_arms"]]
 
 # Tie A: the IBig bit-operator sign tables are regenerated from integer/src/bits.rs on every run
 # (lean/Dashu/Gen/Glue.lean) and proved equal to the same specification as the hand model's tables
@@ -397,6 +760,37 @@ GEN_AUDIT += ["Dashu.Audit.GenBitsSmall"]
 # the two mirrors of shift.rs / math.rs (bit model, division model) are one model, and its word kernels are the regenerated text
 GEN_PROPS += ["Dashu.Props.C09Shift"]
 GEN_AUDIT += ["Dashu.Audit.C09Shift"]
+# Tie A, word loops: integer/src/shift.rs in full (shl_in_place, shr_in_place_with_carry, shr_in_place, shr_in_place_one_word) —
+# loop header (direction), loop body, early return, initial carry, result — regenerated over checked machine integers and proved
+# equal to the hand mirrors (Div.shlInPlace / shrInPlaceWithCarry / shrInPlace) and to the bit model's shlBits / shrBits
+GEN_PROPS += ["Dashu.Props.GenShift"]
+GEN_AUDIT += ["Dashu.Audit.GenShift"]
+# Tie A, primitive-typed forms: the ten `fn` bodies of impl_binop_with_primitive / impl_commutative_binop_with_primitive /
+# impl_binop_assign_with_primitive (integer/src/helper_macros.rs, regenerated in Gen/FormsGlue.lean over abstract callees), with the
+# callees interpreted by C09's / C06's models, ARE the hand model's ubigAndPrim / ubigOpPrim / ibigAndPrimU / ibigOpPrimU / ibigOpPrimS
+GEN_PROPS += ["Dashu.Props.GenBitsPrim"]
+GEN_AUDIT += ["Dashu.Audit.GenBitsPrim"]
+# Tie A, word scans: trailing_zeros_large / trailing_zeros_large_shifted_by_one / trailing_ones_large of integer/src/bits.rs — scan
+# loops, CHECKED slice accesses (none = index out of bounds), the all-ones early exit, index arithmetic and casts — regenerated and
+# proved equal to tzLarge / tzLargeShiftedByOne / toScanFixed, panics included (the historical trailing_ones_large fails the theorem)
+GEN_PROPS += ["Dashu.Props.GenScans"]
+GEN_AUDIT += ["Dashu.Audit.GenScans"]
+# the clause "mixed UBig/IBig forms = converting both operands to IBig first" for | and ^: regenerated forwarding bodies
+# (forward_ubig_ibig_binop_to_repr / forward_ibig_ubig_binop_to_repr, Gen/FormsGlue) composed with the regenerated sign tables (Gen/Glue)
+# = OR / XOR of the values; and the same for the hand model the driver runs
+GEN_PROPS += ["Dashu.Props.GenBitsMixed"]
+GEN_AUDIT += ["Dashu.Audit.GenBitsMixed"]
+# Tie A, heap arms of << / >>: shl_one_spilled, shl_dword_spilled, shl_large_ref, shl_large (for every buffer capacity), shr_large of
+# integer/src/shift_ops.rs — buffer statements, the calls of the regenerated loops / math::shl_dword, `&mut buffer[shift_words..]`,
+# the early returns — regenerated and proved equal to shlDword's spilled arms / shlLarge / shrLarge of the hand model
+GEN_PROPS += ["Dashu.Props.GenShiftHeap"]
+GEN_AUDIT += ["Dashu.Audit.GenShiftHeap"]
+# Tie A, heap arms of set_bit / clear_high_bits: with_bit_dword_spilled, with_bit_large, clear_high_bits_large of integer/src/bits.rs
+GEN_PROPS += ["Dashu.Props.GenBitsHeap"]
+GEN_AUDIT += ["Dashu.Audit.GenBitsHeap"]
+# Tie A, word loops of the unsigned bit operators: bitand_large, bitor_large, bitxor_large, and_not_large, *_large_dword of bits.rs
+GEN_PROPS += ["Dashu.Props.GenBitOpsHeap"]
+GEN_AUDIT += ["Dashu.Audit.GenBitOpsHeap"]
 
 LEVEL_TEXT = ("Machine-checked Lean 4 theorems, for every word size and operand length, that the sign-case tables of & | ^ ! "
               "(also as regenerated from integer/src/bits.rs on every run) "
@@ -418,3 +812,17 @@ LEVEL_NOTE = ("Trusted: Lean kernel; axioms propext/Classical.choice/Quot.sound;
               "canonical (producer side is C05/C17). Items listed under frontier_kernels are decided by the correspondence "
               "against an independently computed specification, not by a theorem.")
 TECHNIQUE = "Lean 4 refinement proofs (bit-extensionality via Nat.testBit / Int.testBit, all W) + differential correspondence model vs real code"
+
+# one audit module for all Tie-A / link theorem modules (one Lean start instead of eight: keeps the quick tier inside its budget on
+# a loaded machine); it prints the axioms of exactly the theorems of the per-module audit files listed above
+GEN_AUDIT = ["Dashu.Audit.C09Gen"]
+
+
+if __name__ == "__main__":
+    import sys
+    _h = arm_histogram(sys.argv[1] if len(sys.argv) > 1 else "quick")
+    for _k in sorted(_h):
+        print("%7d  %s" % (_h[_k], _k))
+    print("arms reached: %d of %d listed; NOT reached: %s; reached but not listed: %s"
+          % (len(set(_h) & ALL_ARMS), len(ALL_ARMS), sorted(ALL_ARMS - set(_h)), sorted(set(_h) - ALL_ARMS)))
+
